@@ -3,7 +3,7 @@
    proofs live in coq/Models/*.v. *)
 From Coq Require Import Reals Lra List.
 From Coquelicot Require Import Coquelicot.
-From PG Require Import Models.SpreadPoint Models.PyReal Gen.FormulasGen Models.Henry Models.Langmuir Models.DSLangmuir Models.TSLangmuir Models.Quadratic Models.BET Models.GAB Models.TemkinApprox Models.Freundlich.
+From PG Require Import Models.SpreadPoint Models.PyReal Gen.FormulasGen Models.Henry Models.Langmuir Models.DSLangmuir Models.TSLangmuir Models.Quadratic Models.BET Models.GAB Models.TemkinApprox Models.Freundlich Models.QuadSpread.
 Import ListNotations.
 Open Scope R_scope.
 
@@ -324,19 +324,19 @@ Print Assumptions Freundlich_spread_incr.
    coq-interval enclosures of this very integrand); a change of the integrand or of the limits in the source changes the generated term and breaks these. *)
 Theorem Toth_spreading_is_quad_of_own_loading : forall n_m K t p,
   Toth_spreading_pressure n_m K t p = RInt (fun x => Toth_loading n_m K t x / x) 0 p.
-Proof. reflexivity. Qed.
+Proof. exact Toth_spreading_is_quad_of_own_loading. Qed.
 Print Assumptions Toth_spreading_is_quad_of_own_loading.
 Theorem JensenSeaton_spreading_is_quad_of_own_loading : forall K a b c p,
   JensenSeaton_spreading_pressure K a b c p = RInt (fun x => JensenSeaton_loading K a b c x / x) 0 p.
-Proof. reflexivity. Qed.
+Proof. exact JensenSeaton_spreading_is_quad_of_own_loading. Qed.
 Print Assumptions JensenSeaton_spreading_is_quad_of_own_loading.
 Theorem DR_spreading_is_quad_of_own_loading : forall minus_rt n_m e p,
   DR_spreading_pressure minus_rt n_m e p = RInt (fun x => DR_loading minus_rt n_m e x / x) 0 p.
-Proof. reflexivity. Qed.
+Proof. exact DR_spreading_is_quad_of_own_loading. Qed.
 Print Assumptions DR_spreading_is_quad_of_own_loading.
 Theorem DA_spreading_is_quad_of_own_loading : forall minus_rt n_m e m p,
   DA_spreading_pressure minus_rt n_m e m p = RInt (fun x => DA_loading minus_rt n_m e m x / x) 0 p.
-Proof. reflexivity. Qed.
+Proof. exact DA_spreading_is_quad_of_own_loading. Qed.
 Print Assumptions DA_spreading_is_quad_of_own_loading.
 
 (* ======== point isotherms (hand-written model Models/SpreadPoint.v, executed against PointIsotherm.spreading_pressure_at on every run) ======== *)
@@ -359,3 +359,31 @@ Print Assumptions point_isotherm_spreading_additive.
 Example point_isotherm_hypotheses_satisfiable : sp_point_def [(1, 2); (2, 3)] (3 / 2) /\
   sp_point [(1, 2); (2, 3)] (3 / 2) = 2 + ((lin 1 2 2 3 (3/2) - 2) / (3/2 - 1) * (3/2 - 1) + (2 - (lin 1 2 2 3 (3/2) - 2) / (3/2 - 1) * 1) * ln (3/2 / 1)).
 Proof. exact sp_point_example. Qed.
+
+(* ---- the CALL spreading_pressure_at(p) without interp_fill, with its range guard `pressure > pressures.max()` (fix 797ce8e):
+   a function of the rows and p alone. Above the highest data pressure it is ALWAYS refused with CalculationError; up to the highest
+   pressure it is ALWAYS answered with the integral; below the first point it is always the Henry value (never refused). *)
+Theorem point_isotherm_call_spec : forall rows p, increasing rows -> 0 <= p ->
+  (last_pressure rows < p /\ sp_point_at rows p = CalculationError) \/
+  (p <= last_pressure rows /\ exists v, sp_point_at rows p = Value v /\ is_RInt (fun x => interp rows x / x) 0 p v).
+Proof. exact sp_point_at_spec. Qed.
+Print Assumptions point_isotherm_call_spec.
+Theorem point_isotherm_call_answers_iff : forall rows p, increasing rows ->
+  (exists v, sp_point_at rows p = Value v) <-> p <= last_pressure rows.
+Proof. exact sp_point_at_answers_iff. Qed.
+Print Assumptions point_isotherm_call_answers_iff.
+Theorem point_isotherm_call_above_range_refused : forall rows p, increasing rows -> last_pressure rows < p ->
+  sp_point_at rows p = CalculationError.
+Proof. exact sp_point_at_above. Qed.
+Print Assumptions point_isotherm_call_above_range_refused.
+Theorem point_isotherm_call_below_first_point_is_henry : forall p1 l1 rest p, increasing ((p1, l1) :: rest) -> p <= p1 ->
+  sp_point_at ((p1, l1) :: rest) p = Value (l1 / p1 * p).
+Proof. exact sp_point_at_below_first. Qed.
+Print Assumptions point_isotherm_call_below_first_point_is_henry.
+(* the guard's pressures.max() is the last pressure of increasing data *)
+Theorem point_isotherm_max_is_last : forall rows, increasing rows -> max_pressure rows = last_pressure rows.
+Proof. exact max_pressure_increasing. Qed.
+Print Assumptions point_isotherm_max_is_last.
+Example point_isotherm_call_example :
+  sp_point_at [(1, 2); (2, 3)] (5 / 2) = CalculationError /\ sp_point_at [(1, 2); (2, 3)] (1 / 2) = Value (2 / 1 * (1 / 2)).
+Proof. exact sp_point_at_example. Qed.
